@@ -5,7 +5,7 @@ from __future__ import annotations
 import os
 import subprocess
 
-KINDS = ("evaluate", "assemble", "compute")
+KINDS = ("evaluate", "assemble", "compute", "prog")
 
 
 def published_header():
@@ -46,3 +46,221 @@ def syntax_check(codes: list[str], workdir: str, tag="tu"):
     if codes:
         check(list(range(len(codes))))
     return bad
+
+
+# --------------------------------------------------------------------------- generated driver
+
+
+class TensorSpec:
+    def __init__(self, name, dims, modes, ordering, indices=None, vals=None, role="input"):
+        self.name = name
+        self.dims = list(dims)
+        self.modes = list(modes)
+        self.ordering = list(ordering)
+        self.indices = indices  # per level None/[] or [pos, crd]; None for an empty output
+        self.vals = vals
+        self.role = role
+
+
+class NativeCase:
+    """One execution: call `calls` (function names of `code`) in order on the same tensors.
+    revalues[k] (optional) = {tensor name: new vals list} applied before call k."""
+
+    def __init__(self, code, tensors, calls, revalues=None, label=""):
+        self.code = code
+        self.tensors = tensors
+        self.calls = list(calls)
+        self.revalues = revalues or {}
+        self.label = label
+
+
+DRIVER_PRELUDE = r"""
+#include <stdio.h>
+#include <string.h>
+static void dump_tensor(const char* tag, taco_tensor_t* t) {
+  printf("TENSOR %s order %d\n", tag, t->order);
+  printf("DIMS");
+  for (int i = 0; i < t->order; i++) printf(" %d", t->dimensions[i]);
+  printf("\n");
+  long n = 1;
+  for (int l = 0; l < t->order; l++) {
+    if (t->mode_types[l] == taco_mode_dense) {
+      n *= t->dimensions[t->mode_ordering[l]];
+    } else {
+      int32_t* pos = t->indices[l][0];
+      int32_t* crd = t->indices[l][1];
+      printf("POS %d", l);
+      for (long i = 0; i <= n; i++) printf(" %d", pos[i]);
+      printf("\n");
+      long nnz = pos[n];
+      printf("CRD %d", l);
+      for (long i = 0; i < nnz; i++) printf(" %d", crd[i]);
+      printf("\n");
+      n = nnz;
+    }
+  }
+  printf("VALS");
+  for (long i = 0; i < n; i++) printf(" %a", t->vals[i]);
+  printf("\n");
+}
+static void* dup_block(const void* src, size_t bytes) {
+  void* p = malloc(bytes ? bytes : 0);
+  if (bytes) memcpy(p, src, bytes);
+  return p;
+}
+"""
+
+
+def _c_ints(xs):
+    return "{" + ", ".join(str(int(x)) for x in xs) + "}" if len(xs) else "{0}"
+
+
+def _c_doubles(xs):
+    return "{" + ", ".join(float(x).hex() for x in xs) + "}" if len(xs) else "{0}"
+
+
+def _emit_case(k, case: NativeCase, tag):
+    L = []
+    w = L.append
+    w(f"static int run_case_{k}(void) {{")
+    w("  int rc = 0;")
+    names = [t.name for t in case.tensors]
+    snaps = []
+    for t in case.tensors:
+        v = f"t{k}_{t.name}"
+        order = len(t.dims)
+        w(f"  taco_tensor_t* {v} = malloc(sizeof(taco_tensor_t));")
+        w(f"  {v}->order = {order};")
+        w(f"  {{ static const int32_t d[] = {_c_ints(t.dims)}; {v}->dimensions = dup_block(d, sizeof(int32_t) * {order}); }}")
+        w(f"  {{ static const int32_t d[] = {_c_ints(t.ordering)}; {v}->mode_ordering = dup_block(d, sizeof(int32_t) * {order}); }}")
+        w(f"  {v}->mode_types = malloc(sizeof(taco_mode_t) * {order});")
+        for l, m in enumerate(t.modes):
+            w(f"  {v}->mode_types[{l}] = {'taco_mode_dense' if m == 'd' else 'taco_mode_sparse'};")
+        w(f"  {v}->indices = malloc(sizeof(int32_t**) * {order});")
+        for l, m in enumerate(t.modes):
+            if m == "d":
+                w(f"  {v}->indices[{l}] = malloc(0);")
+            else:
+                w(f"  {v}->indices[{l}] = malloc(sizeof(int32_t*) * 2);")
+                if t.indices is None:
+                    w(f"  {v}->indices[{l}][0] = NULL; {v}->indices[{l}][1] = NULL;")
+                else:
+                    pos, crd = t.indices[l]
+                    w(f"  {{ static const int32_t d[] = {_c_ints(pos)}; {v}->indices[{l}][0] = dup_block(d, sizeof(int32_t) * {len(pos)}); }}")
+                    w(f"  {{ static const int32_t d[] = {_c_ints(crd)}; {v}->indices[{l}][1] = dup_block(d, sizeof(int32_t) * {len(crd)}); }}")
+                    if t.role == "input":
+                        snaps.append((f"{v}->indices[{l}][0]", f"sizeof(int32_t) * {len(pos)}"))
+                        snaps.append((f"{v}->indices[{l}][1]", f"sizeof(int32_t) * {len(crd)}"))
+        if t.vals is None:
+            w(f"  {v}->vals = NULL;")
+        else:
+            w(f"  {{ static const double d[] = {_c_doubles(t.vals)}; {v}->vals = dup_block(d, sizeof(double) * {len(t.vals)}); }}")
+            if t.role == "input":
+                snaps.append((f"{v}->vals", f"sizeof(double) * {len(t.vals)}"))
+        if t.role == "input":
+            snaps.append((f"{v}->dimensions", f"sizeof(int32_t) * {order}"))
+            snaps.append((f"{v}->mode_ordering", f"sizeof(int32_t) * {order}"))
+    args = ", ".join(f"t{k}_{n}" for n in names)
+    out = [t for t in case.tensors if t.role == "output"][0]
+    for ci, fn in enumerate(case.calls):
+        for name, vals in case.revalues.get(ci, {}).items():
+            w(f"  {{ static const double d[] = {_c_doubles(vals)}; memcpy(t{k}_{name}->vals, d, sizeof(double) * {len(vals)}); }}")
+        # snapshot inputs
+        for si, (expr, size) in enumerate(snaps):
+            w(f"  void* snap{ci}_{si} = dup_block({expr}, {size});")
+        w(f"  rc = {tag}_{fn}({args});")
+        w(f'  printf("CALL {ci} {fn} RET %d\\n", rc);')
+        w("  {")
+        w("    int same = 1;")
+        for si, (expr, size) in enumerate(snaps):
+            w(f"    if (({size}) && memcmp(snap{ci}_{si}, {expr}, {size}) != 0) same = 0;")
+            w(f"    free(snap{ci}_{si});")
+        w(f'    printf("INPUTS_UNCHANGED %d\\n", same);')
+        w("  }")
+        if not (fn == "assemble"):
+            w(f'  dump_tensor("{out.name}", t{k}_{out.name});')
+        else:
+            w(f'  printf("ASSEMBLED\\n");')
+    w('  printf("DONE\\n");')
+    w("  return 0;")
+    w("}")
+    return "\n".join(L)
+
+
+def build_binary(cases: list, workdir: str, name: str, sanitizer="asan"):
+    """Write one translation unit with all modules (functions renamed k<N>_*) and a main that runs
+    the case given as argv[1].  -> (path of the binary | None, compiler stderr)."""
+    parts = [published_header(), DRIVER_PRELUDE]
+    for k, c in enumerate(cases):
+        parts.append(renamed(c.code, f"k{k}"))
+    for k, c in enumerate(cases):
+        parts.append(_emit_case(k, c, f"k{k}"))
+    parts.append("int main(int argc, char** argv) {\n  int k = atoi(argv[1]);\n  setvbuf(stdout, NULL, _IOFBF, 1 << 16);\n  switch (k) {")
+    for k in range(len(cases)):
+        parts.append(f"    case {k}: run_case_{k}(); break;")
+    parts.append("  }\n  fflush(stdout);\n  return 0;\n}")
+    src = os.path.join(workdir, f"{name}.c")
+    exe = os.path.join(workdir, name)
+    with open(src, "w") as f:
+        f.write("\n".join(parts))
+    if sanitizer == "asan":
+        cmd = ["gcc", "-O1", "-g", "-std=c11", "-ffp-contract=off", "-fsanitize=address,undefined", "-fno-sanitize-recover=all",
+               "-fno-omit-frame-pointer", "-w", "-o", exe, src]
+    elif sanitizer == "msan":
+        cmd = ["clang", "-O1", "-g", "-std=c11", "-ffp-contract=off", "-fsanitize=memory", "-fsanitize-memory-track-origins",
+               "-fno-omit-frame-pointer", "-w", "-o", exe, src]
+    else:
+        cmd = ["gcc", "-O1", "-std=c11", "-ffp-contract=off", "-w", "-o", exe, src]
+    r = subprocess.run(cmd, capture_output=True, text=True, timeout=1800)
+    if r.returncode != 0:
+        return None, r.stderr[-2000:]
+    return exe, ""
+
+
+def run_case(exe, k, timeout=60):
+    """-> (status, parsed dumps, stderr tail); status in ok | sanitizer | signal | timeout | incomplete"""
+    env = dict(os.environ)
+    env["ASAN_OPTIONS"] = "detect_leaks=0:abort_on_error=0:halt_on_error=1:allocator_may_return_null=1"
+    env["UBSAN_OPTIONS"] = "print_stacktrace=1:halt_on_error=1"
+    env["MSAN_OPTIONS"] = "halt_on_error=1"
+    try:
+        r = subprocess.run([exe, str(k)], capture_output=True, text=True, timeout=timeout, env=env)
+    except subprocess.TimeoutExpired:
+        return "timeout", None, ""
+    err = r.stderr
+    parsed = parse_dump(r.stdout)
+    if "Sanitizer" in err or "runtime error" in err:
+        return "sanitizer", parsed, err[-1500:]
+    if r.returncode < 0:
+        return "signal", parsed, f"signal {-r.returncode} {err[-500:]}"
+    if r.returncode != 0:
+        return "signal", parsed, f"exit {r.returncode} {err[-500:]}"
+    if not r.stdout.rstrip().endswith("DONE"):
+        return "incomplete", parsed, err[-500:]
+    return "ok", parsed, ""
+
+
+def parse_dump(text):
+    """-> list of calls: {fn, ret, inputs_unchanged, tensor: (dims, indices{level:[pos,crd]}, vals as hex strings)}"""
+    calls = []
+    cur = None
+    for line in text.splitlines():
+        p = line.split()
+        if not p:
+            continue
+        if p[0] == "CALL":
+            cur = {"fn": p[2], "ret": int(p[4]), "inputs_unchanged": None, "tensor": None}
+            calls.append(cur)
+        elif p[0] == "INPUTS_UNCHANGED" and cur is not None:
+            cur["inputs_unchanged"] = p[1] == "1"
+        elif p[0] == "TENSOR" and cur is not None:
+            cur["tensor"] = {"dims": None, "pos": {}, "crd": {}, "vals": None}
+        elif p[0] == "DIMS" and cur is not None and cur["tensor"] is not None:
+            cur["tensor"]["dims"] = [int(x) for x in p[1:]]
+        elif p[0] == "POS" and cur is not None and cur["tensor"] is not None:
+            cur["tensor"]["pos"][int(p[1])] = [int(x) for x in p[2:]]
+        elif p[0] == "CRD" and cur is not None and cur["tensor"] is not None:
+            cur["tensor"]["crd"][int(p[1])] = [int(x) for x in p[2:]]
+        elif p[0] == "VALS" and cur is not None and cur["tensor"] is not None:
+            cur["tensor"]["vals"] = [float.fromhex(x) if x not in ("nan", "-nan", "inf", "-inf") else float(x) for x in p[1:]]
+    return calls
